@@ -19,7 +19,7 @@ from checks import c18_world as W
 
 PROP = 'C18'
 N_CONFIGS = {'quick': 208, 'thorough': 4800}
-HISTORIES_PER_CONFIG = {'quick': 4, 'thorough': 8}
+HISTORIES_PER_CONFIG = {'quick': 5, 'thorough': 10}
 WALL_CAP = {'quick': 130.0, 'thorough': 2700.0}
 
 
@@ -230,14 +230,14 @@ def sweep(world, cfg, tier, rng, stats):
 
 def gen_history(cfg, ref, rng):
     """Draw a fault plan: one fault per segment, up to three segments with faults."""
-    n_faults = rng.choice([1, 1, 2, 2, 3])
+    n_faults = rng.choice([1, 1, 2, 2, 2, 3, 3])  # multi-fault histories reach state carried across *two* resumes
     faults = []
     ops_total = max(ref['ops'], 2)
     ops_per_save = max(2, ops_total // max(1, ref['n_saves']))
     for s in range(n_faults):
         r = rng.random()
         if r < 0.55:
-            if s > 0 and rng.random() < 0.6:
+            if s > 0 and rng.random() < 0.45:
                 at = rng.randrange(0, ops_per_save + 2)  # inside the first save after the resume
             elif s == 0 and rng.random() < 0.8 and ref.get('first_save_done_at') is not None:
                 # after the first completed save, so that there is a checkpoint to resume from
